@@ -217,7 +217,7 @@ enum Layer {
     Import,
     /// `@display` of an ELEMENT of a container that is interpolated / debug-printed: `run_display` /
     /// `run_debug_op` render the container natively, the element's `@display` runs in a nested entry
-    /// of a spawned VM — and (F-C08-4) every error of it is replaced by a string error
+    /// of a spawned VM (before 5d8bf61 / 9cbdb4e its error was replaced by a string error: F-C08-4)
     DisplayInList,
     DisplayInMap,
     DebugInTuple,
@@ -267,12 +267,6 @@ const NESTED_ENTRY: &[Layer] = &[
     Layer::SortKey,
 ];
 
-/// natives that replace every error of the entry they started by a string error
-const STRINGIFYING: &[Layer] = &[Layer::DisplayInList, Layer::DisplayInMap, Layer::DebugInTuple];
-
-/// set at start-up: F-C08-4 is listed as known, i.e. the natives above still stringify timeouts
-static STRINGIFY_OPEN: std::sync::atomic::AtomicBool = std::sync::atomic::AtomicBool::new(false);
-
 impl Layer {
     fn is_handler(self) -> bool {
         matches!(self, Layer::Try | Layer::TryRetry)
@@ -280,16 +274,9 @@ impl Layer {
     fn is_nested(self) -> bool {
         NESTED_ENTRY.contains(&self)
     }
-    /// frame code of the model request: 0 plain frame, 1 entry boundary, 2 entry boundary whose native
-    /// caller turns a timeout into a string error (only while F-C08-4 is open)
+    /// frame code of the model request: 0 plain frame, 1 entry boundary
     fn frame_code(self) -> u8 {
-        if STRINGIFYING.contains(&self) && STRINGIFY_OPEN.load(Ordering::SeqCst) {
-            2
-        } else if self.is_nested() {
-            1
-        } else {
-            0
-        }
+        self.is_nested() as u8
     }
     fn name(self) -> String {
         format!("{:?}", self)
@@ -839,22 +826,10 @@ fn periods(predicted_caught: bool) -> u64 {
 }
 
 /// limit periods within which a late timeout of an unbounded-recursion spin is attributed to
-/// F-C08-5 (measured: 4.1 × limit at 20/50/200 ms); later than that is a VIOLATION
-const DEEP_PERIODS: u64 = 6;
-
-/// the model's `caught` condition, used only as generation filter for the witness family of
-/// F-C08-4: a stringifying native (while that finding is open) with a handler somewhere below it
-fn stringified_with_handler_below(shape: &Shape) -> bool {
-    let mut seen_handler = false;
-    for l in &shape.layers {
-        if l.is_handler() {
-            seen_handler = true;
-        } else if l.frame_code() == 2 && seen_handler {
-            return true;
-        }
-    }
-    false
-}
+/// F-C08-5. Measured: 4.1 × limit for the two-line witness, up to 8.5 × when the recursive call sits
+/// deeper in a longer source or in a module (one source excerpt is rendered per popped frame and the
+/// renderer scans the source up to the call's line). Later than 20 × limit is a VIOLATION.
+const DEEP_PERIODS: u64 = 20;
 
 fn run_case(w: &mut Worker, c: &Case, predicted_caught: bool) -> CaseRes {
     let script = script_of(&c.shape);
@@ -1071,10 +1046,8 @@ fn judge(cx: &mut Ctx, c: &Case, prediction: &str, res: &CaseRes) {
             );
             return;
         }
-        // model and code agree; the property (a timeout error is returned) is violated: F-C08-4
-        if cx.is_open("F-C08-4") && c.shape.layers.iter().any(|l| l.frame_code() == 2) {
-            *cx.known_counts.entry("F-C08-4".into()).or_insert(0) += 1;
-        } else {
+        // model and code agree; the property (a timeout error is returned) is violated
+        {
             cx.viol_d("C08:timeout-kind-lost", detail(json!({"what": "the run was stopped by the limit but the host received a different error than the timeout error", "host_error": host_err_text})));
         }
         swallowed = false; // timing is judged below like for any delivered timeout
@@ -1123,15 +1096,9 @@ fn judge(cx: &mut Ctx, c: &Case, prediction: &str, res: &CaseRes) {
             );
             return;
         }
-        // model and code agree; the property is violated on this input. Cause rule of F-C08-4: the
-        // shape has a stringifying native with a handler below it AND every value the handler
-        // caught is the string error that run_display / run_debug_op put in place of the timeout
-        let f4 = cx.is_open("F-C08-4")
-            && stringified_with_handler_below(&c.shape)
-            && handler_events.iter().all(|e| e.1.starts_with("failed to get display value"));
-        if f4 {
-            *cx.known_counts.entry("F-C08-4".into()).or_insert(0) += 1;
-        } else {
+        // model and code agree that a handler catches the timeout: the property is violated on this
+        // input (no such prediction exists since not_catchable_nested holds for every stack)
+        {
             cx.viol_d(
                 "C08:timeout-swallowed",
                 detail(json!({"what": "timeout detected in a nested interpreter entry was caught by a try/catch of an enclosing entry", "handlers_seen": handlers_seen})),
@@ -1155,9 +1122,7 @@ fn gen_cases(rng: &mut Rng, thorough: bool) -> Vec<Case> {
     };
     let push = |cases: &mut Vec<Case>, layers: Vec<Layer>, spin: Spin, limit: u64| {
         let shape = Shape { layers, spin, bound: None };
-        let family = if shape.layers.iter().any(|l| l.frame_code() == 2) {
-            "F-C08-4"
-        } else if has_handler_below_nested(&shape) {
+        let family = if has_handler_below_nested(&shape) {
             "handler-below-nested-entry"
         } else {
             "sweep"
@@ -1228,11 +1193,6 @@ fn gen_cases(rng: &mut Rng, thorough: bool) -> Vec<Case> {
         if layers.iter().filter(|l| **l == Layer::TryRetry).count() > 1 {
             continue;
         }
-        // generation filter (not a suppression rule): the shape of F-C08-4 (a stringifying native on
-        // the way) is produced only as the witness family below while that finding is open
-        if layers.iter().any(|l| l.frame_code() == 2) {
-            continue;
-        }
         let lim = if thorough { *rng.pick(all_limits) } else { *rng.pick(quick_limits) };
         push(&mut cases, layers, shape.spin, lim);
         made += 1;
@@ -1254,8 +1214,8 @@ fn gen_cases(rng: &mut Rng, thorough: bool) -> Vec<Case> {
     push(&mut cases, vec![Layer::Each, Layer::Try, Layer::OpAdd, Layer::Try], Spin::Loop, fam_limit);
     push(&mut cases, vec![Layer::Try, Layer::GenFor, Layer::Method, Layer::Keep], Spin::UntilFalse, fam_limit);
     push(&mut cases, vec![Layer::Method, Layer::Try, Layer::Display], Spin::LoopHelper, 50);
-    // display of a container with a spinning element: witness family of F-C08-4 while it is open
-    // (the model then predicts `caught`), ordinary cases (predicted `escaped`) once it is fixed
+    // display of a container with a spinning element: the former witness family of F-C08-4 (fixed in
+    // 5d8bf61 / 9cbdb4e), ordinary cases predicted `escaped timeout`
     push(&mut cases, vec![Layer::Try, Layer::DisplayInList], Spin::Loop, fam_limit);
     push(&mut cases, vec![Layer::Try, Layer::DisplayInMap], Spin::WhileTrue, fam_limit);
     push(&mut cases, vec![Layer::Try, Layer::DebugInTuple], Spin::UntilFalse, fam_limit);
@@ -1326,7 +1286,6 @@ fn main() {
         .iter()
         .filter_map(|e| e.get("id").and_then(|x| x.as_str()).map(|s| s.to_string()))
         .collect();
-    STRINGIFY_OPEN.store(open.iter().any(|x| x == "F-C08-4"), Ordering::SeqCst);
     let drv = Driver::spawn(&args.driver);
     let mut cx = Ctx { rep, drv, open, known_counts: Default::default(), k_fail: 0, d_fail: 0 };
     let thorough = args.thorough();
@@ -1503,7 +1462,6 @@ fn main() {
     if let Some(dir) = &args.corpus {
         for (name, script, limit, expect) in file_cases(dir) {
             let id = match expect.as_str() {
-                "swallowed-display" => "F-C08-4",
                 "late" => "F-C08-2",
                 "late-recursion" => "F-C08-5",
                 _ => "",
@@ -1578,13 +1536,9 @@ fn main() {
                 cx.viol_k("K:C08:driver", json!({"what": "model driver gave no prediction", "request": deliver_request(&c.shape), "response": pred}));
                 continue;
             }
-            // Props/C08 not_catchable_nested_partial / catchable_stringified: the executable model says
-            // `escaped timeout` unless a stringifying native is on the way; `caught` iff additionally a
-            // handler lies below it — the generation filter relies on the same condition
-            let has2 = c.shape.layers.iter().any(|l| l.frame_code() == 2);
-            let expect = if !has2 { "escaped timeout" } else if stringified_with_handler_below(&c.shape) { "caught" } else { "escaped other" };
-            if !pred.starts_with(expect) {
-                cx.viol_k("K:C08:Model.Timeout.deliver", json!({"what": "the model driver's prediction contradicts Props/C08 (not_catchable_nested_partial / catchable_stringified): driver and theorem file out of sync", "request": deliver_request(&c.shape), "response": pred, "expected": expect}));
+            // Props/C08 not_catchable_nested: the executable model says `escaped timeout` for every stack
+            if pred != "escaped timeout" {
+                cx.viol_k("K:C08:Model.Timeout.deliver", json!({"what": "the model driver's prediction contradicts Props/C08 not_catchable_nested (`escaped timeout` for every stack): driver and theorem file out of sync", "request": deliver_request(&c.shape), "response": pred}));
             }
             judge(&mut cx, c, pred, res);
         }
